@@ -511,6 +511,25 @@ def h_search_export(H, net):
     flags = [m.training for m in model.modules()]
     model.export()
     H.ensure('[C18] export:training-flag-of-every-sub-module-unchanged-in-mixed-mode', [m.training for m in model.modules()] == flags)
+    # ... and so are the reports of the wrapper: summary() (the same architecture as before the two exports), str(), the parameter listings
+    s_a = model.summary()
+    model.__str__()
+    n_nas = len(list(model.named_nas_parameters()))
+    n_net = len(list(model.named_net_parameters()))
+    s_b = model.summary()
+    H.ensure('[C18] observers:summary-after-exports-is-the-summary-before', _same_report(H, summ, s_a) and _same_report(H, s_a, s_b))
+    H.ensure('[C18] observers:parameter-listings-partition-the-parameters', n_nas + n_net == len(list(model.parameters())))
+    H.ensure('[C18] observers:training-flag-of-every-sub-module-unchanged-by-the-reports', [m.training for m in model.modules()] == flags)
+
+
+def _same_report(H, a, b):
+    if isinstance(a, dict):
+        return isinstance(b, dict) and sorted(a.keys()) == sorted(b.keys()) and all(_same_report(H, a[k], b[k]) for k in a)
+    if isinstance(a, (list, tuple)):
+        return len(a) == len(b) and all(_same_report(H, u, v) for u, v in zip(a, b))
+    if isinstance(a, str) or a is None:
+        return a == b
+    return H.eq(a, b)
 
 
 PROPERTY = {}
@@ -532,7 +551,7 @@ HARNESSES = [
          thorough=[dict(net=n, training=t, fold_bn=f) for n in _MAIN for t in _B for f in _B] +
                   [dict(net='with-modules', training=t, fold_bn=f, mixed=mx) for t in _B for f in _B for mx in (('act',), ('pool',), ('act', 'pool'))] +
                   [dict(net='user-placed', training=t, fold_bn=f, autoconvert=False) for f in _B for t in _B], timeout=120),
-    dict(name='whole-search-export', bounded='enumerated architectures (contracts/whole_pit.py NETS); weights, statistics, masks, inputs symbolic', fn='h_search_export', property=['C01', 'C09', 'C08', 'C18', 'C04'], functions=_FUNCS,
+    dict(name='whole-search-export', bounded='enumerated architectures (contracts/whole_pit.py NETS); weights, statistics, masks, inputs symbolic', fn='h_search_export', property=['C01', 'C09', 'C08', 'C18', 'C04'], functions=_FUNCS + [_P + 'pit.py::PIT.' + f for f in ('summary', '__str__', 'named_nas_parameters', 'named_net_parameters')],
          quick=[dict(net=n) for n in _MAIN], thorough=[dict(net=n) for n in _MAIN], timeout=120),
     # architectures on which the unchanged tree fails (known findings, reported by seeding agents): own entries so that each is charged to the property whose clause it breaks
     dict(name='whole-import-output-tied', bounded='enumerated architectures (EXTRA_NETS)', fn='h_import', property=['C08'], functions=_FUNCS,
